@@ -786,6 +786,9 @@ def execute(plan):
             if cand2["lets"] == plan["prog"]["lets"]:
                 continue
             try:
+                # (valid as written, too: the library builds a program with its declared
+                # values before any dictionary is applied)
+                progast.resolve(cand2, None, executable=True)
                 R2 = progast.resolve(cand2, ov, executable=True)
             except progast.Invalid:
                 continue
